@@ -1195,6 +1195,17 @@ def c15_run(rep, tier, seed, tr):
                 os.makedirs(os.path.join(root, "inner", ".git"))
                 os.makedirs(os.path.join(root, "inner", "deep"))
                 return C.run_bw(os.path.join(root, "inner", "deep"), ["list"], env={"BLOCKWATCH_TERMINAL_MODE": "1"})
+            if kind == "hg-in-git":
+                # the NEAREST directory holding a repository marker is the root, whatever kind of marker it is
+                C.materialise(root, [("a.py", "# <block name=\"outer\">\n# </block>\n"), ("vendor/p/b.py", "# <block name=\"inner\">\n# </block>\n")])
+                os.makedirs(os.path.join(root, "vendor", "p", ".hg"))
+                os.makedirs(os.path.join(root, "vendor", "p", "lib"))
+                return C.run_bw(os.path.join(root, "vendor", "p", "lib"), ["list"], env={"BLOCKWATCH_TERMINAL_MODE": "1"})
+            if kind == "git-in-hg":
+                C.materialise(root, [("a.py", "# <block name=\"outer\">\n# </block>\n"), ("vendor/p/b.py", "# <block name=\"inner\">\n# </block>\n")], git_marker=False)
+                os.makedirs(os.path.join(root, ".hg"))
+                os.makedirs(os.path.join(root, "vendor", "p", ".git"))
+                return C.run_bw(os.path.join(root, "vendor", "p"), ["list"], env={"BLOCKWATCH_TERMINAL_MODE": "1"})
             if kind == "hg":
                 C.materialise(root, [("a.py", "# <block name=\"x\">\n# </block>\n")], git_marker=False)
                 os.makedirs(os.path.join(root, ".hg")); os.makedirs(os.path.join(root, "s"))
@@ -1205,6 +1216,8 @@ def c15_run(rep, tier, seed, tr):
             _sh.rmtree(root, ignore_errors=True)
     for kind, check in [("nested", lambda r: r["exit"] == 0 and set(json.loads(r["stdout"])) == {"b.py"}),
                         ("hg", lambda r: r["exit"] == 0 and set(json.loads(r["stdout"])) == {"a.py"}),
+                        ("hg-in-git", lambda r: r["exit"] == 0 and set(json.loads(r["stdout"])) == {"b.py"}),
+                        ("git-in-hg", lambda r: r["exit"] == 0 and set(json.loads(r["stdout"])) == {"b.py"}),
                         ("none", lambda r: r["exit"] not in (0, None) and "panicked" not in r["stderr"] and r["stderr"].strip() != "" and r["stdout"].strip() == "")]:  # a readable error, whatever its wording
         res = root_case(kind)
         rep.evaluations += 1
@@ -1242,6 +1255,53 @@ def c04_run(rep, tier, seed, tr):
         return any(f.get("nodes") for f in case["files"])
     K.correspondence(rep, rows, "soup", nontrivial, known=K.load_known(rep.prop), oracle=oracle_no_crash)
     cli_correspondence(rep, rows, "soup", n_for(tier, 300, 3000), subs=("validate", "list"), known=K.load_known(rep.prop))
+    c04_large(rep, tier)
+
+
+def c04_large(rep, tier):
+    """size is an input too: long comments, many stray `<`, many tags in one comment, deep nesting, many blocks, long lines,
+    big diffs - through the binary (a stack overflow or an abort cannot be caught in-process), scan / list / diff mode"""
+    import cli as C, shutil as _sh
+    k = 60000 if tier == "quick" else 400000
+    rep.rules.append(f"large inputs through the binary ({k} repetitions each): one comment with that many stray `<` / foreign tags / look-alikes / unterminated tags, that many tags in one comment, nesting that deep, that many sibling blocks, one line that long, a diff touching every line; scan, list and diff mode; terminates within 120 s with exit 0 or 1 and no panic / abort")
+    deep = k // 20
+    files = {
+        "stray.xml": "<r>\n<!-- " + "<e>1</e>" * k + " -->\n<!-- <block name=\"a\" keep-sorted> -->\n<x>a</x>\n<x>b</x>\n<!-- </block> -->\n</r>\n",
+        "angles.c": "/* " + "< " * k + " <block name=\"b\"> */\nint x;\n/* </block> */\n",
+        "lookalike.py": "# " + "<blockquote> <block/> </ blok> " * (k // 8) + "\n# <block name=\"c\">\n# </block>\n",
+        "openquote.js": "// " + "<block a=\"q " * (k // 8) + "\n// <block name=\"d\">\n// </block>\n",
+        "manytags.rs": "/* " + "<block name=\"m\"> </block> " * (k // 20) + "*/\n",
+        "deep.py": "".join(f"# <block name=\"n{i}\">\n" for i in range(deep)) + "x = 1\n" + "# </block>\n" * deep,
+        "siblings.go": "package main\n" + "".join(f"// <block name=\"s{i}\" line-count=\">=0\">\nvar a{i} = {i}\n// </block>\n" for i in range(k // 20)),
+        "longline.toml": "# <block name=\"l\" line-pattern=\"^k\">\nk = \"" + "v" * (k * 10) + "\"\n# </block>\n",
+        "sorted.yaml": "# <block name=\"y\" keep-sorted keep-unique>\n" + "".join(f"- k{i:07d}\n" for i in range(k // 4)) + "# </block>\n",
+    }
+    def one(name):
+        root = C.tmp_root()
+        try:
+            C.materialise(root, [(name, files[name])])
+            out = []
+            out.append(("scan", C.run_bw(root, [name], env={"BLOCKWATCH_TERMINAL_MODE": "1"}, timeout=120)))
+            out.append(("list", C.run_bw(root, ["list", name], env={"BLOCKWATCH_TERMINAL_MODE": "1"}, timeout=120)))
+            n = files[name].count("\n")
+            body = "".join("+" + l + "\n" for l in files[name].split("\n")[:-1])
+            diff = f"diff --git a/{name} b/{name}\nnew file mode 100644\nindex 0000000..1111111\n--- /dev/null\n+++ b/{name}\n@@ -0,0 +1,{n} @@\n" + body
+            out.append(("diff", C.run_bw(root, [], stdin=diff, timeout=120)))
+            return out
+        finally:
+            _sh.rmtree(root, ignore_errors=True)
+    names = sorted(files)
+    for name, outs in zip(names, C.pmap(one, names, workers=9)):
+        for mode, res in outs:
+            rep.evaluations += 1
+            rep.traces += 1
+            rep.nontrivial.add(f"large:{name}:{mode}")
+            bad = res.get("timeout") or res["exit"] not in (0, 1) or "panicked at" in res["stderr"] or "overflowed its stack" in res["stderr"]
+            rep.count(f"large:{mode}:" + ("BAD" if bad else f"exit{res['exit']}"))
+            if bad:
+                rep.violation({"property": rep.prop, "component": f"large inputs ({mode})", "what": "a large input makes the binary crash, abort or run out of time",
+                               "file": name, "size_bytes": len(files[name]), "how_to_rebuild": "checks/registry.py c04_large builds the file from one repeated piece",
+                               "head": files[name][:300], "cli": {"exit": res.get("exit"), "timeout": res.get("timeout", False), "stderr": res["stderr"][:600]}})
 
 
 CHECKS["C04"] = {
@@ -1351,8 +1411,9 @@ def c17_escape(rep):
         elif name == "safe":
             need = ["io.open", "os.getenv", "package.path", "dofile", "require", "load:io.open", "captured:io"]
             missing = [k for k in need if outcome.get(k) == "blocked" and k not in ("require",)]
-            if missing or outcome.get("debug.getregistry") != "blocked" or outcome.get("_G.debug") != "blocked":
-                rep.violation({"property": rep.prop, "component": "escape battery (safe)", "what": "safe mode must add io, os, package and nothing else (no debug)", "outcome": outcome, "cli": res})
+            native = {k: v for k, v in outcome.items() if k.endswith("package.loadlib") and v != "blocked"}
+            if missing or native or outcome.get("debug.getregistry") != "blocked" or outcome.get("_G.debug") != "blocked":
+                rep.violation({"property": rep.prop, "component": "escape battery (safe)", "what": "safe mode must add io, os, package and nothing else (no debug, no loading of native modules: only `unsafe` adds those)", "outcome": outcome, "native_module_loading": native, "cli": res})
         elif name == "unsafe":
             if outcome.get("debug.getregistry") == "blocked" or outcome.get("io.open") == "blocked":
                 rep.violation({"property": rep.prop, "component": "escape battery (unsafe)", "what": "unsafe mode must add debug and keep io/os/package", "outcome": outcome, "cli": res})
@@ -1471,8 +1532,10 @@ def c19_scenario(rnd, k, fault_kind):
         attrs = f" check-ai=\"{cond}\"" if "\"" not in cond else f" check-ai='{cond}'"
         if rnd.random() < 0.3:
             attrs += f" name=\"n{b}\""
-        if rnd.random() < 0.25:
-            attrs += f" severity=\"{rnd.choice(['warning', 'info', 'Hint', 'error'])}\""
+        # in half of the fault scenarios every block is of low severity: rejections elsewhere then produce diagnostics that do
+        # not fail the run by themselves - the fault must
+        if (fault_kind and k % 2 == 0) or rnd.random() < 0.25:
+            attrs += f" severity=\"{rnd.choice(['warning', 'info', 'Hint'] if fault_kind and k % 2 == 0 else ['warning', 'info', 'Hint', 'error'])}\""
         if rnd.random() < 0.25:
             pat = rnd.choice(["k=(?P<value>\\w+)", "k=\\w+", "nomatch\\d{5}"])
             attrs += f" check-ai-pattern='{pat}'"
@@ -1714,7 +1777,8 @@ def git_e2e(rep, rows, tier, seed, limit):
                 cands = [p for p in new_files if not meta_by[p].get("new_file")]
                 if cands:
                     p = rnd.choice(cands)
-                    q = os.path.join(os.path.dirname(p), "renamed_" + os.path.basename(p))
+                    # the new name keeps the grammar: `renamed_x.py`; a whole-name file (Makefile) moves to another directory
+                    q = os.path.join(os.path.dirname(p), "renamed_" + os.path.basename(p)) if "." in os.path.basename(p) else os.path.join(os.path.dirname(p), "renamed", os.path.basename(p))
                     git(root, "mv", p, q)
                     renamed[p] = q
             for p, t in new_files.items():
